@@ -96,27 +96,29 @@ type sStreamRec struct {
 }
 
 type strEnv struct {
-	sc        strScenario
-	mu        sync.Mutex
-	conn      *rpc.Conn
-	cfeed     chan feedItem
-	sfeed     chan feedItem
-	c2s, s2c  []linkFrame
-	cut       bool
-	cShut     bool
-	sEnded    bool
-	seqs      []uint64 // sequence number of the i-th stream opened
-	pushPlan  []int    // i-th stream: how many messages its handler pushes the moment it starts
-	pushed    []int    // i-th stream: how many of them have been handed to the connection
-	cs        []*cStreamRec
-	ss        []*sStreamRec
-	ucalls    []uint64
-	udone     map[uint64]bool
-	served    chan struct{}
-	cclosed   chan struct{}
-	sclosed   chan struct{}
-	cCloseOne sync.Once
-	sCloseOne sync.Once
+	sc         strScenario
+	mu         sync.Mutex
+	conn       *rpc.Conn
+	cfeed      chan feedItem
+	sfeed      chan feedItem
+	c2s, s2c   []linkFrame
+	cut        bool
+	cShut      bool
+	sEnded     bool
+	seqs       []uint64 // sequence number of the i-th stream opened
+	pushPlan   []int    // i-th stream: how many messages its handler pushes the moment it starts
+	pushed     []int    // i-th stream: how many of them have been handed to the connection
+	cs         []*cStreamRec
+	ss         []*sStreamRec
+	ucalls     []uint64
+	udone      map[uint64]bool
+	uDelivered map[string]bool // unary request frames handed to the server's reader
+	uAnswered  map[string]int  // responses the server wrote for them
+	served     chan struct{}
+	cclosed    chan struct{}
+	sclosed    chan struct{}
+	cCloseOne  sync.Once
+	sCloseOne  sync.Once
 }
 
 // ---- the two fake socket.Messages ----
@@ -215,6 +217,7 @@ func (m *strServerMsgs) WriteMessage(b []byte) error {
 			}
 		} else {
 			name = fmt.Sprintf("u%d", r.Seq)
+			e.uAnswered[name]++
 		}
 	}
 	if !e.cut {
@@ -319,7 +322,7 @@ func (strBody) Unmarshal(data []byte, v interface{}) error {
 }
 
 func newStrEnv(sc strScenario) *strEnv {
-	e := &strEnv{sc: sc, cfeed: make(chan feedItem), sfeed: make(chan feedItem), udone: map[uint64]bool{}, served: make(chan struct{}),
+	e := &strEnv{sc: sc, cfeed: make(chan feedItem), sfeed: make(chan feedItem), udone: map[uint64]bool{}, uDelivered: map[string]bool{}, uAnswered: map[string]int{}, served: make(chan struct{}),
 		cclosed: make(chan struct{}), sclosed: make(chan struct{})}
 	curStrEnv = e
 	mkEnc := func() rpc.Encoder {
@@ -518,6 +521,9 @@ func runStrScenario(sc strScenario) *strResult {
 			e.mu.Lock()
 			fr := e.c2s[0]
 			e.c2s = e.c2s[1:]
+			if strings.HasPrefix(fr.name, "u") {
+				e.uDelivered[fr.name] = true
+			}
 			e.mu.Unlock()
 			ok = feed(e.sfeed, feedItem{frame: fr.raw})
 		case "dcn", "dsn":
@@ -535,6 +541,9 @@ func runStrScenario(sc strScenario) *strResult {
 					// writes the moment it starts: such a frame is never part of a burst with other frames
 					fr, e.c2s, have = e.c2s[0], e.c2s[1:], true
 					lastUnary = e.solo(fr.name)
+					if strings.HasPrefix(fr.name, "u") {
+						e.uDelivered[fr.name] = true
+					}
 				}
 				e.mu.Unlock()
 				if !have {
@@ -737,6 +746,12 @@ func checkStr(sc strScenario, r *strResult) []connVerdict {
 	for i, c := range e.cs {
 		if c.closeDone && !e.cShut && i < len(e.ss) && e.ss[i].e.waiting && !cutHappened {
 			add("C10", "handler-unblocked", "C10/handler-blocked-after-close/"+mode, fmt.Sprintf("stream %d: the client's Close has returned, the handler's ReadMessage is still blocked", i))
+		}
+	}
+	// C04: a unary request the server has read is answered exactly once (its handler returns at once here)
+	for name := range e.uDelivered {
+		if n := e.uAnswered[name]; n != 1 {
+			add("C04", "one-response", "C04/unary-beside-streams/"+mode, fmt.Sprintf("unary request %s was read by the server next to stream traffic and got %d responses", name, n))
 		}
 	}
 	if r.stuck != "" {
